@@ -389,6 +389,8 @@ func (c18) Generate(r *rand.Rand, t string) []*Case {
 
 	out = append(out, c18OpOrderCases(r, t)...) // stream op-order (below; enumeration in c06_hist.go)
 
+	out = append(out, c18StandaloneCases(r, t)...) // stream standalone-sequence (c18_standalone.go)
+
 	if t != "thorough" {
 		return out
 	}
@@ -823,6 +825,9 @@ func (c18) Compare(c *Case, exp, got []hist.Obs) string {
 	if c.Stream == "gennames-stub" {
 		return c18StubCompare(c, exp, got) // c18_gennames.go
 	}
+	if _, ok := c.Meta["c18sa"]; ok {
+		return c18StandaloneCompare(exp, got) // c18_standalone.go
+	}
 	return CompareAll(exp, got)
 }
 
@@ -832,6 +837,9 @@ func (c18) Oracle(c *Case, got []hist.Obs) string {
 	}
 	if c.Stream == "op-order" {
 		return c18HistOracle(c, got)
+	}
+	if m, ok := c.Meta["c18sa"].(*c18saMeta); ok {
+		return c18StandaloneOracle(m, got) // c18_standalone.go
 	}
 	if m, ok := c.Meta["fail"].(string); ok {
 		return m
